@@ -25,6 +25,9 @@ CHECKS = {
  "C07": dict(engine="A", technique="property-based differential testing: real LR parser vs real GLR parser on the same generated deterministic grammar (proptest, shrinking)",
    text="Bounded random exploration: for generated conflict-free grammars the LR parser (defaults) and the GLR parser (LALR_RN) built from the same text are run on generated valid and invalid inputs (ASCII and multi-byte, multi-line); acceptance, solution count, tree (productions, token kinds/texts/spans, node spans after stripping trailing empty children) and error positions must agree.",
    note="Trusted: scope decision uses the real raw table (cross-checked against an independent LR(1) construction in C04); no Layout rule (GLR trees carry no layout by design)."),
+ "C09": dict(engine="A", technique="property-based testing with a reference desugaring and exhaustive bounded language equivalence (Earley on both grammars over all strings up to length 5) plus structural comparison of productions and meta-data (proptest, shrinking)",
+   text="Bounded random exploration: generated valid grammar texts using every implemented construct; the real grammar dump is compared with the harness's own model: start symbol, production lists of user rules symbol for symbol, inline-string resolution, assignment names, inherited meta-data (production's own datum wins), terminals; sugar is compared by language (helper nonterminal and whole grammar vs the documented expansion, exhaustive over all token strings up to length 4/5 for <= 4 terminals) and by helper count.",
+   note="Trusted: reference desugaring (DESIGN.md appendix A.3); bounded equivalence is exhaustive only up to the length bound; one recorded finding (separator ignored in helper names) keyed on its structural class."),
  "C12": dict(engine="A", technique="property-based testing against an Earley valid-prefix oracle: error offsets of the real LR and GLR parsers on generated invalid inputs (proptest, shrinking)",
    text="Bounded random exploration: generated grammars x generated invalid inputs (mutations, truncations, random tokens, foreign characters, whitespace/newline variations); the reported error offset, line/column and expected list of the real LR and GLR parsers are compared with the first non-viable token computed by an independent Earley recogniser; sentences must parse.",
    note="Trusted: Earley valid-prefix computation on the spec's BNF (all nonterminals productive by construction); prefix-free terminals; default whitespace skipping."),
